@@ -1,4 +1,5 @@
 """U6: the stacked front-ends (readonly.rs, stack.rs) on top of U5."""
+from extract import ExtractError
 import importlib.util
 import os
 
@@ -92,7 +93,7 @@ def level_touch_ensures(lookup):
 
 def weave_readonly(u, u4):
     from weave import Repl
-    u.text('pub mod readonly {\n' + u4.MOD_HEAD + 'use crate::std::fs::File;\nuse crate::plain::Cache as PlainCache;\nuse crate::sharded::Cache as ShardedCache;\n'
+    u.text('pub mod readonly {\n' + u4.MOD_HEAD + 'use crate::std::fs::File;\n#[allow(unused_imports)]\nuse crate::benign_error::is_absent_file_error;\nuse crate::plain::Cache as PlainCache;\nuse crate::sharded::Cache as ShardedCache;\n'
            'use crate::sharded::entry_in;\nuse crate::sharded::sharded_lookup;\nuse crate::Key;\nuse crate::Arc;\nuse crate::cache_dir::CacheDir;\n')
     u.text('''
 /// The copy a plain directory holds for `name`: the inode bound to child(base, name).
@@ -239,7 +240,8 @@ impl ReadOnlyCache {
     d.add_param(W)
     d.replace('checker ( prev , & mut hit )', 'checker.call(prev, &mut hit)', 'T7-checker-call')
     d.contract(requires=[('', 'old(w).inv() && levels_wf(stack@)')], ensures=stack_get_ensures('stack@', '(*checker)'))
-    d.desugar_for(0, itvar='kw_it', next_args='',
+    # `for cache in stack.iter()` and `for cache in stack` are the same loop over a slice
+    d.desugar_for(0, itvar='kw_it', next_args='', into_iter=d._find('in stack . iter ( )', count=True) == 0,
                   after_init='let ghost mut k: int = 0; let ghost mut idx: int = 0;',
                   after_next='proof { k = k + 1; let wk = *w; assert forall|fin: World| #[trigger] fin.atime_only(wk) implies fin.atime_only(*old(w)) by { lemma_atime_only_trans(*old(w), wk, fin); } } ')
     d.thread(['cache . get', '. seek'])
@@ -252,9 +254,11 @@ impl ReadOnlyCache {
          'w.atime_only(*old(w)) && (k == 0 ==> *w == *old(w))'),
         ('C13:nothing-found-so-far-means-no-level-so-far-holds-a-copy',
          'ret.is_none() ==> forall|j: int| 0 <= j < k ==> (#[trigger] stack@[j]).lookup(old(w).files, key).is_none()'),
-        ('C13 C14 C19:the-candidate-is-the-first-copy-accepted-against-every-later-copy-seen-so-far',
-         'ret.is_some() ==> checker.is_some() && 0 <= idx < k && first_copy(stack@, old(w).files, key, idx, ret.unwrap().ino()) && !ret.unwrap().can_write() && ret.unwrap().offset() == 0 '
+        ('C13 C14:the-candidate-is-the-first-copy-accepted-against-every-later-copy-seen-so-far',
+         'ret.is_some() ==> checker.is_some() && 0 <= idx < k && first_copy(stack@, old(w).files, key, idx, ret.unwrap().ino()) '
          '&& later_copies_accepted(stack@, old(w).files, key, checker.unwrap(), ret.unwrap().ino(), idx, k)'),
+        ('C19 C01 C13:the-candidate-is-read-only-and-rewound-after-every-comparison',
+         'ret.is_some() ==> !ret.unwrap().can_write() && ret.unwrap().offset() == 0'),
         ('C16:an-invalid-name-never-gets-past-the-first-level', 'k > 0 ==> first_byte_ok(str_bytes(key.name)) && valid_key(str_bytes(key.name))'),
         ('C01:the-candidate-holds-bytes-supplied-for-this-key',
          'ret.is_some() && levels_configured(stack@, old(w).cfg()) ==> w.inodes.contains_key(ret.unwrap().ino()) && w.supplied.contains((str_bytes(key.name), w.inodes[ret.unwrap().ino()].content))'),
@@ -295,7 +299,7 @@ impl ReadOnlyCache {
     td.air = r'readonly::impl&%\d+::touch::doit'
     td.add_param(W)
     td.contract(requires=[('', 'old(w).inv() && levels_wf(stack@)')], ensures=stack_touch_ensures('stack@'))
-    td.desugar_for(0, itvar='kw_it', next_args='',
+    td.desugar_for(0, itvar='kw_it', next_args='', into_iter=td._find('in stack . iter ( )', count=True) == 0,
                    after_init='let ghost mut k: int = 0;',
                    after_next='proof { k = k + 1; let wk = *w; assert forall|fin: World| #[trigger] fin.atime_only(wk) implies fin.atime_only(*old(w)) by { lemma_atime_only_trans(*old(w), wk, fin); } } ')
     td.thread(['cache . touch'])
@@ -336,7 +340,7 @@ WRITE_SPECS = '''
 
 def weave_stack(u, u4):
     from weave import Repl
-    u.text('pub mod stack {\n' + u4.MOD_HEAD + 'use crate::std::fs::File;\nuse crate::plain::Cache as PlainCache;\nuse crate::sharded::Cache as ShardedCache;\n'
+    u.text('pub mod stack {\n' + u4.MOD_HEAD + 'use crate::std::fs::File;\n#[allow(unused_imports)]\nuse crate::benign_error::is_absent_file_error;\nuse crate::plain::Cache as PlainCache;\nuse crate::sharded::Cache as ShardedCache;\n'
            'use crate::Key;\nuse crate::Arc;\nuse crate::cache_dir::CacheDir;\nuse crate::cache_dir::*;\nuse crate::sharded::*;\nuse crate::readonly::*;\nuse crate::readonly::ReadOnlyCache;\n'
            'use crate::ConsistencyChecker;\nuse crate::DocumentedPanic;\n')
     BAD = '(!first_byte_ok(str_bytes(key.name)) || str_bytes(key.name).contains(0x2fu8))'
@@ -377,6 +381,8 @@ def weave_stack(u, u4):
              'bytes_kept(*old(w), *final(w))'),
             ('C13 C11 C18:success-means-a-publication-happened' + ('' if op == 'set' else '-unless-the-key-was-already-bound'),
              'r.is_ok() ==> final(w).published > old(w).published' + ('' if op == 'set' else ' || self.lookup(old(w).files, key).is_some()')),
+            ] + ([] if op == 'set' else [('C11 C04:put-never-overwrites-an-existing-entry',
+                                         'r.is_ok() && final(w).hard_faults == old(w).hard_faults && final(w).listed == old(w).listed && self.lookup(old(w).files, key).is_some() ==> final(w).published == old(w).published')]) + [
             ('C02 C18:valid-on-every-exit', 'final(w).inv()'), ('', 'final(w).kept_nc(*old(w))'),
             ('C16:invalid-names-fail-with-invalid-input-and-modify-nothing',
              '%s ==> r.is_err() && err_kind(err_of(r)) == ErrorKind::InvalidInput && final(w).same_fs(*old(w)) && final(w).counter == old(w).counter && final(w).published == old(w).published' % BAD),
@@ -536,7 +542,7 @@ pub open spec fn read_copies_accepted(rs: ReadOnlyCache, links: Map<PathV, Inode
                  '&& !r.unwrap().unwrap().can_write() && r.unwrap().unwrap().offset() == 0' % (wopt, ws, ws)),
                 ('C14:a-write-side-hit-is-checked-against-every-read-only-copy',
                  'r.is_ok() && %s.is_some() && %s.lookup(old(w).files, key).is_some() && %s ==> read_copies_accepted(%s, old(w).files, key, %s, %s.lookup(old(w).files, key).unwrap())' % (wopt, ws, ck_some, rs, ck_val, ws)),
-                ('C13 C14 C19:otherwise-the-first-read-only-copy-is-returned',
+                ('C13 C14 C19 C01:otherwise-the-first-read-only-copy-is-returned',
                  'r.is_ok() && r.unwrap().is_some() && !(%s.is_some() && %s.lookup(old(w).files, key).is_some()) ==> !r.unwrap().unwrap().can_write() && r.unwrap().unwrap().offset() == 0 '
                  '&& exists|idx: int| #[trigger] first_copy(%s.levels(), old(w).files, key, idx, r.unwrap().unwrap().ino()) '
                  '&& (%s.checker().is_some() ==> later_copies_accepted(%s.levels(), old(w).files, key, %s.checker().unwrap(), r.unwrap().unwrap().ino(), idx, %s.levels().len() as int))' % (wopt, ws, rs, rs, rs, rs, rs)),
@@ -605,7 +611,7 @@ pub open spec fn read_copies_accepted(rs: ReadOnlyCache, links: Map<PathV, Inode
         ('C03 C18:a-failed-chmod-flush-or-close-is-reported', 'r.is_err() ==> final(w).hard_faults > old(w).hard_faults || %(noworld)s'),
         ('C15 C02:finalizing-touches-only-that-inode',
          'final(w).files == old(w).files && final(w).dirs == old(w).dirs && forall|i: InodeId| i != %(t)s.ino() && old(w).inodes.contains_key(i) ==> #[trigger] final(w).inodes[i] == old(w).inodes[i]'),
-        ('C03 C19:content-is-never-touched-by-finalization',
+        ('C03 C19 C01:content-is-never-touched-by-finalization',
          'final(w).inodes.contains_key(%(t)s.ino()) && final(w).inodes[%(t)s.ino()].content == old(w).inodes[%(t)s.ino()].content && bytes_kept(*old(w), *final(w))'),
         ('C06 C20:at-most-three-filesystem-calls', 'final(w).steps <= old(w).steps + 2 * (3) && final(w).opens == old(w).opens'),
     ]
@@ -670,6 +676,8 @@ pub open spec fn read_copies_accepted(rs: ReadOnlyCache, links: Map<PathV, Inode
              'bytes_kept(*old(w), *final(w))'),
             ('C13 C11 C18:success-means-a-publication-happened' + ('' if op == 'set' else '-unless-the-key-was-already-bound'),
              'r.is_ok() ==> final(w).published > old(w).published' + ('' if op == 'set' else ' || %s.lookup(old(w).files, key).is_some()' % ws)),
+            ] + ([] if op == 'set' else [('C11 C04:put-never-overwrites-an-existing-entry',
+                                         'r.is_ok() && final(w).hard_faults == old(w).hard_faults && final(w).listed == old(w).listed && %s.lookup(old(w).files, key).is_some() ==> final(w).published == old(w).published' % ws)]) + [
             INV, ('', 'final(w).kept_nc(*old(w))'),
             ('C13 C15:without-a-write-cache-writes-fail-as-unsupported-and-change-nothing',
              '%s.is_none() ==> r.is_err() && err_kind(err_of(r)) == ErrorKind::Unsupported && *final(w) == *old(w)' % ws.replace('.unwrap()', '')),
@@ -710,6 +718,8 @@ pub open spec fn read_copies_accepted(rs: ReadOnlyCache, links: Map<PathV, Inode
                 ('C11 C18:success-consumes-the-source', 'r.is_ok() ==> old(w).files.contains_key(%s) && !final(w).files.contains_key(%s)' % (VAL, VAL)),
                 ('C13 C11 C18:success-means-a-publication-happened' + ('' if op.startswith('set') else '-unless-the-key-was-already-bound'),
                  'r.is_ok() ==> final(w).published > old(w).published' + ('' if op.startswith('set') else ' || %s.lookup(old(w).files, key).is_some()' % TW_)),
+                ] + ([] if op.startswith('set') else [('C11 C04:put-never-overwrites-an-existing-entry',
+                                                      'r.is_ok() && final(w).hard_faults == old(w).hard_faults && final(w).listed == old(w).listed && %s.writer().is_some() && %s.lookup(old(w).files, key).is_some() ==> final(w).published == old(w).published' % (this, TW_))]) + [
                 ('C18 C05:error-is-explained',
                  'r.is_err() ==> %s.writer().is_none() || %s || final(w).hard_faults > old(w).hard_faults || !final(w).files.contains_key(%s) || !old(w).files.contains_key(%s)' % (this, REJ, VAL, VAL)),
             ]
@@ -968,8 +978,25 @@ pub fn opt_arc_as_ref<T: ?Sized>(o: &Option<Arc<T>>) -> (r: Option<&T>)
     en.air = 'stack::Cache::ensure'
     en.add_param(W)
     en.replace("key : impl Into < Key < 'a > >", "key: Key<'a>", 'T11-into-identity')
-    en.replace('fn judge ( _ : CacheHit )', 'fn judge(kv_h: CacheHit)', 'T12-unused-param-name')
-    en.replace('| dst , _ | populate ( dst )', '|dst: &mut File, kv_old: Option<File>| populate(dst)', 'T12-unused-param-name')
+    # the nested constant judge, whatever it and its (usually unused) parameter are called
+    jname, jparam = None, None
+    for i in range(en.item.lo, en.hi - 5):
+        t = en.ct
+        if t[i][1] == 'fn' and t[i + 2][1] == '(' and t[i + 4][1] == ':' and t[i + 5][1] == 'CacheHit' and t[i + 6][1] == ')':
+            jname, jparam = t[i + 1][1], t[i + 3][1]
+    if jname is None:
+        raise ExtractError('src/stack.rs::impl Cache::fn ensure: the nested judge function (one CacheHit parameter) was not found')
+    if jparam == '_':
+        en.replace('fn %s ( _ : CacheHit )' % jname, 'fn %s(kv_h: CacheHit)' % jname, 'T12-unused-param-name')
+        jparam = 'kv_h'
+    # the adapter closure around populate: its second parameter is unused whatever it is called
+    for i in range(en.item.lo, en.hi - 6):
+        t = en.ct
+        if t[i][1] == '|' and t[i + 2][1] == ',' and t[i + 4][1] == '|' and t[i + 5][1] == 'populate' and t[i + 6][1] == '(':
+            en.replace('| %s , %s | populate (' % (t[i + 1][1], t[i + 3][1]), '|%s: &mut File, kv_old: Option<File>| populate(' % t[i + 1][1], 'T12-unused-param-name')
+            break
+    else:
+        raise ExtractError('src/stack.rs::impl Cache::fn ensure: the adapter closure around populate was not found')
     en.thread(['self . get_or_update'])
     en.contract(
         requires=[('', 'old(w).inv() && old(w).must_sync == self.syncs() && levels_wf(%s.levels()) && levels_configured(%s.levels(), old(w).cfg()) '
@@ -990,9 +1017,9 @@ pub fn opt_arc_as_ref<T: ?Sized>(o: &Option<Arc<T>>) -> (r: Option<&T>)
             ('C05 C18 C13:once-the-value-is-published-the-call-succeeds-unless-a-real-fault-follows',
              'r.is_err() ==> final(w).published == old(w).published || final(w).hard_faults > old(w).hard_faults'),
         ])
-    jd = en.sub(['fn judge'])
+    jd = en.sub(['fn ' + jname])
     jd.contract(ensures=[('C13:ensure-always-asks-for-promotion', 'r is Promote'),
-                         ('', 'final(hit_file(kv_h)).ino() == hit_file(kv_h).ino() && final(hit_file(kv_h)).can_write() == hit_file(kv_h).can_write()')])
+                         ('', 'final(hit_file(%s)).ino() == hit_file(%s).ino() && final(hit_file(%s)).can_write() == hit_file(%s).can_write()' % ((jparam,) * 4))])
     u.dropped.append('T12: the unused parameter `_` of `ensure::judge` is spelled `kv_h` (Verus needs a named parameter to state that the hit is handed back unchanged)')
 
 
